@@ -205,8 +205,19 @@ func (s *SourceControl) runLaterIfActive(f func()) error {
 	if !s.isSourceActive {
 		return fmt.Errorf("no source is active")
 	}
-	s.queuedRequests <- f
-	return <-s.queuedResults
+	// The core loop is the only receiver of queuedRequests, and it ends by itself when the
+	// source reports an error or times out. Don't wait forever for a core loop that is gone.
+	for {
+		select {
+		case s.queuedRequests <- f:
+			return <-s.queuedResults
+		case <-time.After(100 * time.Millisecond):
+			if !s.ActiveSource.Running() {
+				s.handlePossibleStoppedSource()
+				return fmt.Errorf("no source is active")
+			}
+		}
+	}
 }
 
 // MixFractionObject is the RPC-usable structure for ConfigureMixFraction
@@ -227,6 +238,10 @@ type MixFractionObject struct {
 // But changes to the mix settings need to be kept separate from LanceroSource.distrubuteData,
 // which is part of the data-*production* step, not the data-processing step.
 func (s *SourceControl) ConfigureMixFraction(mfo *MixFractionObject, reply *bool) error {
+	*reply = false
+	if !s.isSourceActive {
+		return fmt.Errorf("no source is active")
+	}
 	currentMix, err := s.ActiveSource.ConfigureMixFraction(mfo)
 	*reply = (err == nil)
 	s.broadcastMixState(currentMix)
